@@ -1048,6 +1048,8 @@ class PipeWorld:
         finally:
             self.in_reply = False
         started = (msg.timing or {}).get('started')
+        if started not in self.stamps:
+            started = None  # not the stamp of a scripted worker (real workers put the clock there: not unique)
         if started is not None and started in self.answered:
             # the same answer a second time: it belongs to no execution in flight and must change nothing
             self.probes['duplicate_reply_judged'] += 1
